@@ -101,7 +101,9 @@ def check_label(case, ctx):
     data = np.array(case['data'], dtype=float)
     rep = case.get('rep', 'float')
     if case.get('thr2d') is not None:
-        thr = np.array(case['thr2d'], dtype=float)
+        # per-pixel thresholds, optionally shifted by a fraction so that they
+        # are not representable in an integer / float32 image's own dtype
+        thr = np.array(case['thr2d'], dtype=float) + case.get('thr_frac', 0.0)
     else:
         thr = float(case['thr'])
     mask = np.array(case['mask'], dtype=bool) if case.get('mask') is not None \
@@ -125,7 +127,10 @@ def check_label(case, ctx):
         ctx.event('rep_quantity')
     elif rep == 'float32' and np.all(np.isfinite(data)) \
             and np.all(data == data.astype(np.float32)) \
-            and np.all(np.asarray(thr) == np.asarray(thr, dtype=np.float32)):
+            and (case.get('thr2d') is not None
+                 or np.all(np.asarray(thr) == np.asarray(thr, dtype=np.float32))):
+        # (a float64 threshold *array* is compared exactly; a Python scalar
+        # is a weak scalar and must be representable)
         # same numbers: data and threshold exactly representable in float32
         d_in = data.astype(np.float32)
         ctx.event('rep_float32')
@@ -198,6 +203,8 @@ def label_cases(draw):
         t2, _ = draw(palette_image(shape, palette=pal, nonfinite=False))
         case['thr2d'] = t2
         case['thr'] = None
+        case['thr_frac'] = draw(st.sampled_from([0.0, 0.0, -0.5, 0.25, 1e-9,
+                                                 -1e-9]))
     else:
         case['thr'] = draw(st.one_of(st.sampled_from(pal),
                                      st.floats(-4, 8)))
